@@ -235,19 +235,78 @@ theorem anti_join_mem_iff (t b : List Row) (r : Row) (hnn : ∀ v ∈ r, v ≠ .
 /-! ### the stages of the mirror -/
 
 open Model.Preprocess in
-theorem distinctGo_no_partition (cfg : Cfg) (frame : List CId) (next : CId) (p : List Model.Preprocess.Tr)
-    (h : ∀ t ∈ p, ∀ s e pa so, t = Model.Preprocess.Tr.take s e pa so → pa = []) :
-    distinctGo cfg frame next p = some (p, next) := by
+theorem distinctGo_no_partition (cfg : Cfg) (frame : List CId) (next : CId) (p : List (Model.Preprocess.Tr × Info))
+    (h : ∀ t ∈ p, ∀ s e pa so, t.1 = Model.Preprocess.Tr.take s e pa so → pa = []) :
+    distinctGo cfg frame next p = some (p.map (·.1), next) := by
   induction p generalizing next with
   | nil => rfl
   | cons t rest ih =>
     have ih' := ih next (fun t ht => h t (List.mem_cons_of_mem _ ht))
+    obtain ⟨t, i⟩ := t
     cases t with
     | take s e pa so =>
-      have : pa = [] := h _ (by simp) s e pa so rfl
+      have : pa = [] := h (Model.Preprocess.Tr.take s e pa so, i) (by simp) s e pa so rfl
       subst this
       simp [distinctGo, ih']
     | _ => simp [distinctGo, ih']
+
+open Model.Preprocess in
+theorem mem_extendKnown {known : List CId} {t : Model.Preprocess.Tr} {i : Info} {k : CId} (h : k ∈ extendKnown known t i) :
+    k ∈ known ∨ i.defines = some k ∨ (∃ sd cols f, t = .join sd cols f ∧ k ∈ cols) := by
+  unfold extendKnown at h
+  split at h
+  · rcases List.mem_append.mp h with a | a
+    · exact .inl a
+    · exact .inr (.inr ⟨_, _, _, rfl, a⟩)
+  · split at h
+    · rename_i c hdv
+      rcases List.mem_append.mp h with a | a
+      · exact .inl a
+      · simp at a; subst a; exact .inr (.inl hdv)
+    · exact .inl h
+
+/-- what `readsOnly` guarantees: every column a later transform reads is a partition column, a column a later Compute
+defines or a column a later Join brings in -/
+theorem readsOnly_spec (known : List Model.Preprocess.CId) (p : List (Model.Preprocess.Tr × Model.Preprocess.Info))
+    (h : Model.Preprocess.readsOnly known p = true) :
+    ∀ ti ∈ p, ∀ rs, ti.2.reads = some rs → ∀ c ∈ rs,
+      c ∈ known ∨ (∃ tj ∈ p, tj.2.defines = some c) ∨ (∃ tj ∈ p, ∃ sd cols f, tj.1 = .join sd cols f ∧ c ∈ cols) := by
+  induction p generalizing known with
+  | nil => intro ti hti; simp at hti
+  | cons hd rest ih =>
+    obtain ⟨t0, i0⟩ := hd
+    intro ti hti rs hrs c hc
+    unfold Model.Preprocess.readsOnly at h
+    cases hr : i0.reads with
+    | none =>
+      simp only [hr] at h
+      rcases List.mem_cons.mp hti with rfl | hti
+      · simp [hr] at hrs
+      · rcases ih known h ti hti rs hrs c hc with a | ⟨tj, htj, hd⟩ | ⟨tj, htj, hj⟩
+        · exact .inl a
+        · exact .inr (.inl ⟨tj, List.mem_cons_of_mem _ htj, hd⟩)
+        · exact .inr (.inr ⟨tj, List.mem_cons_of_mem _ htj, hj⟩)
+    | some rs0 =>
+      simp only [hr, Bool.and_eq_true] at h
+      obtain ⟨hall, hrest⟩ := h
+      have lift : ∀ k, k ∈ Model.Preprocess.extendKnown known t0 i0 →
+          k ∈ known ∨ (∃ tj ∈ (t0, i0) :: rest, tj.2.defines = some k) ∨
+            (∃ tj ∈ (t0, i0) :: rest, ∃ sd cols f, tj.1 = .join sd cols f ∧ k ∈ cols) := by
+        intro k hk
+        rcases mem_extendKnown hk with a | a | a
+        · exact .inl a
+        · exact .inr (.inl ⟨(t0, i0), by simp, a⟩)
+        · exact .inr (.inr ⟨(t0, i0), by simp, a⟩)
+      rcases List.mem_cons.mp hti with rfl | hti
+      · simp only [hr, Option.some.injEq] at hrs
+        subst hrs
+        have := List.all_eq_true.mp hall c hc
+        simp only [List.contains_iff_mem] at this
+        exact lift c this
+      · rcases ih _ hrest ti hti rs hrs c hc with a | ⟨tj, htj, hd⟩ | ⟨tj, htj, hj⟩
+        · exact lift c a
+        · exact .inr (.inl ⟨tj, List.mem_cons_of_mem _ htj, hd⟩)
+        · exact .inr (.inr ⟨tj, List.mem_cons_of_mem _ htj, hj⟩)
 
 open Model.Preprocess in
 def isAppend : Model.Preprocess.Tr → Bool
